@@ -9,7 +9,7 @@ import hashlib
 import json
 import os
 
-from vlib import Infra, NCPU, log, open_findings, read_ndjson, save_replay, tlc_mc, tlc_sim, write_evidence, write_ndjson
+from vlib import Infra, NCPU, open_findings, read_ndjson, save_replay, tlc_mc, tlc_sim, write_evidence, write_ndjson
 
 ENV_STEPS = ('truncate', 'garbage', 'tamper')
 DEFAULT = None      # the default class record, taken from a generated behaviour
@@ -104,12 +104,19 @@ def sig(mm):
     return (mm.get('kind'), mm.get('a'), mm.get('step'), mm.get('exp'), mm.get('got'))
 
 
-def cand_at(beh, step):
-    c = None
-    for s in beh[:max(step, 0) + 1]:
+def cfg_at(beh, mm):
+    """The configuration a mismatch is about: the client's candidate for validate/save, the stored one for load/open."""
+    cand = stored = None
+    for s in beh[:max(mm.get('step', 0), 0) + 1]:
         if s['a'] in ('init', 'choose'):
-            c = s['cfg']
-    return c
+            cand = s['cfg']
+        elif s['a'] == 'tamper':
+            stored = s['cfg']
+        elif s['a'] == 'save' and s['exp'].get('ok'):
+            stored = cand
+        elif s['a'] in ('open', 'reopen') and s['exp'].get('ok'):
+            stored = s['exp']['c']
+    return cand if mm.get('a') in ('validate', 'save') or stored is None else stored
 
 
 def deviation(c):
@@ -118,30 +125,38 @@ def deviation(c):
 
 def matches_known(mm, beh):
     """A mismatch is attributed to an open known finding only if the finding's predicate holds for it:
-    pattern = {kind: [..], field: <config field>, classes: [..]} - the candidate in force has that field in one of the classes."""
-    cand = cand_at(beh, mm.get('step', 0)) or {}
+    pattern = {kind: [..], field: <config field>, classes: [..]} - the configuration concerned has that field in one of the classes."""
+    c = cfg_at(beh, mm) or {}
     for k in open_findings('C20'):
         pat = k.get('pattern', {})
         if pat.get('kind') and mm.get('kind') not in pat['kind']:
             continue
-        if pat.get('field') and cand.get(pat['field']) not in pat.get('classes', []):
+        if pat.get('field') and c.get(pat['field']) not in pat.get('classes', []):
             continue
         return k
     return None
 
 
 def classify(ctx, mms, variant, sweep):
-    """Reproduce every distinct kind of mismatch; attribute to known findings; record violations."""
-    seen = {}
-    for mm, beh in mms:
-        key = (mm.get('kind'), mm.get('exp'), mm.get('got'), json.dumps(deviation(cand_at(beh, mm.get('step', 0))), sort_keys=True))
-        if key in seen or len(seen) >= 12:
-            seen[key] = seen.get(key, 0) + 1
+    """Mismatches are grouped by (kind, call, predicted, observed); inside a group the configuration with the fewest
+    non-default fields is the representative and explains every mismatch whose configuration contains its deviation.
+    Every representative is reproduced, attributed to a known finding if its predicate holds, else reported."""
+    handled = ctx.notes.setdefault('_handled', [])       # shared by all replay runs of this check; removed before evidence
+    order = sorted(mms, key=lambda x: (len(deviation(cfg_at(x[1], x[0]))), x[0].get('step', 0), len(x[1])))
+    for mm, beh in order:
+        key = (mm.get('kind'), mm.get('a'), mm.get('exp'), mm.get('got'))
+        dev = set(deviation(cfg_at(beh, mm)).items())
+        cover = [h for h in handled if h[0] == key and h[1] <= dev]
+        if cover:
+            cover[0][2][0] += 1
             continue
-        seen[key] = 1
+        if len(handled) >= 12:
+            continue
+        count = [1]
+        handled.append((key, dev, count))
         again = 0
         for i in range(2):
-            m2, _ = replay(ctx, [beh], variant, sweep, f'repro{len(seen)}-{i}', procs=1)
+            m2, _ = replay(ctx, [beh], variant, sweep, f'repro{len(handled)}-{i}', procs=1)
             if m2 and sig(m2[0][0]) == sig(mm):
                 again += 1
         if again < 2:
@@ -152,14 +167,11 @@ def classify(ctx, mms, variant, sweep):
             if k['id'] not in ctx.known_seen:
                 ctx.known_seen.append(k['id'])
             continue
-        if len(ctx.violations) >= 6:
-            continue
         path = save_replay(ctx, 'config', {'behaviour': beh, 'variant': variant, 'sweep': sweep, 'mismatch': mm})
-        cand = deviation(cand_at(beh, mm.get('step', 0)))
         ctx.violations.append({'what': f"step {mm.get('step')} {mm.get('a')}: {mm.get('kind')}: the specification predicts {mm.get('exp')!r}, "
-                                       f"the code gives {mm.get('got')!r}; candidate = default except {json.dumps(cand, sort_keys=True)} "
+                                       f"the code gives {mm.get('got')!r}; configuration = default except {json.dumps(dict(dev), sort_keys=True)} "
                                        f"(value variant {variant}) {mm.get('msg', '')}",
-                               'replay': path})
+                               'replay': path, 'count': count})
 
 
 def replay_saved(ctx, payload):
@@ -296,6 +308,7 @@ def check_C20(ctx):
                 cov[0] += r.get('truncs', 0)
         classify(ctx, mms, v, sweep)
     ctx.evaluations = ctx.traces
+    ctx.notes.pop('_handled', None)
     ctx.notes['truncation_lengths_exercised'] = truncs
     ctx.notes['engine_opens'] = opens
     ctx.notes['behaviours_cut_short'] = skipped
